@@ -523,3 +523,83 @@ Proof.
     apply Z.le_trans with (2 ^ (eb + es)); [apply Z.pow_le_mono_r; lia|].
     rewrite Z.pow_add_r by lia. nia.
 Qed.
+
+(** * Opening a local product of two degree-t sharings with threshold 2t
+
+    [is_zero_public], [reciprocal], [_is_zero] (and their array versions) open  b = a * r  where both
+    factors are degree-t Shamir sharings, so b is shared by the product polynomial h = f_a * f_r of degree
+    2t, and every receiver obtains 2t shares plus its own: ALL of h when m = 2t+1.  The opened VALUE
+    h(0) = a*r is perfectly blinded ([mult_blind]) but the polynomial is not uniform among those with
+    that constant term unless a fresh degree-2t sharing of zero is added (or the product is reshared).
+    Toy instance by exhaustive counting: p = 11, m = 3, t = 1, parties at X = 1, 2, 3, the view of party 1
+    (one party = a coalition of size t). *)
+
+Definition toy_p : Z := 11.
+Definition Fp : list Z := zrange 0 11.
+Definition Fp_nz : list Z := zrange 1 10.
+
+(** view of the party at X = 1: its own shares f_a(1), f_r(1) and the received shares h(2), h(3);
+    f_a = a + al X, f_r = r + rh X *)
+Definition toy_view (a al r rh : Z) : Z * Z * Z * Z :=
+  let fa x := (a + al * x) mod toy_p in
+  let fr x := (r + rh * x) mod toy_p in
+  (fa 1, fr 1, (fa 2 * fr 2) mod toy_p, (fa 3 * fr 3) mod toy_p).
+
+(** all tapes (al, r, rh) with r nonzero — so that the public result "a is nonzero" is the same for
+    every nonzero secret a — each tape equally likely *)
+Definition toy_views (a : Z) : list (Z * Z * Z * Z) :=
+  flat_map (fun al => flat_map (fun r => map (fun rh => toy_view a al r rh) Fp) Fp_nz) Fp.
+
+Definition view_eqb (v w : Z * Z * Z * Z) : bool :=
+  match v, w with (a, b, c, d), (a', b', c', d') => (a =? a') && (b =? b') && (c =? c') && (d =? d') end.
+
+Definition reachable (v : Z * Z * Z * Z) (l : list (Z * Z * Z * Z)) : bool := existsb (view_eqb v) l.
+
+(** number of tapes of secret a whose view can also arise from secret a' *)
+Definition overlap (a a' : Z) : nat :=
+  let l' := toy_views a' in List.length (filter (fun v => reachable v l') (toy_views a)).
+
+(** The claim "two nonzero secrets (same public output) give the same view distribution" is REFUTED for
+    the un-rerandomised product: of the 1210 equally likely tapes of a = 1 only 110 lead to a view that is
+    possible at all for any other nonzero secret a'; statistical distance >= 1100/1210 = 10/11. *)
+Theorem unrerandomised_product_leaks_refuted :
+  List.length (toy_views 1) = 1210%nat /\
+  (forall a', In a' (zrange 2 9) -> overlap 1 a' = 110%nat) /\
+  exists v, In v (toy_views 1) /\ reachable v (toy_views 2) = false.
+Proof.
+  split; [vm_compute; reflexivity|]. split.
+  - assert (H : forallb (fun a' => Nat.eqb (overlap 1 a') 110) (zrange 2 9) = true) by (vm_compute; reflexivity).
+    rewrite forallb_forall in H. intros a' Ha. apply Nat.eqb_eq. auto.
+  - exists (toy_view 1 0 1 1). split; [|vm_compute; reflexivity].
+    unfold toy_views. apply in_flat_map. exists 0. split; [vm_compute; tauto|].
+    apply in_flat_map. exists 1. split; [vm_compute; tauto|].
+    apply in_map_iff. exists 1. split; [reflexivity|vm_compute; tauto].
+Qed.
+
+(** With a fresh uniform degree-2 sharing of zero  Z = z1 X + z2 X^2  added, the shares at X = 1, 2 of
+    h + Z take every pair of values for exactly one (z1, z2), whatever h is: the opened polynomial is
+    uniform among those with constant term h(0), so it carries no information beyond the opened value. *)
+Definition zero_sharing_count (h1 h2 y1 y2 : Z) : nat :=
+  List.length (filter (fun z : Z * Z => let (z1, z2) := z in
+      (((h1 + z1 + z2) mod toy_p =? y1) && ((h2 + 2 * z1 + 4 * z2) mod toy_p =? y2)))
+      (flat_map (fun z1 => map (fun z2 => (z1, z2)) Fp) Fp)).
+
+Theorem rerandomised_product_uniform :
+  forall h1 h2 y1 y2, In h1 Fp -> In h2 Fp -> In y1 Fp -> In y2 Fp -> zero_sharing_count h1 h2 y1 y2 = 1%nat.
+Proof.
+  assert (H : forallb (fun h1 => forallb (fun h2 => forallb (fun y1 => forallb (fun y2 =>
+              Nat.eqb (zero_sharing_count h1 h2 y1 y2) 1) Fp) Fp) Fp) Fp = true) by (vm_compute; reflexivity).
+  intros h1 h2 y1 y2 H1 H2 H3 H4.
+  rewrite forallb_forall in H. specialize (H h1 H1).
+  rewrite forallb_forall in H. specialize (H h2 H2).
+  rewrite forallb_forall in H. specialize (H y1 H3).
+  rewrite forallb_forall in H. specialize (H y2 H4).
+  now apply Nat.eqb_eq.
+Qed.
+
+(** rows of the generated product-opening table: is the opened value a local product of sharings, and is
+    a zero sharing / reshare applied before the opening on every path (for all field sizes)? *)
+Inductive rerand := RAlways | RConditional | RNever.
+Record prow := MkPRow { psite : string; pproduct : bool; prerand : rerand }.
+Definition prow_ok (r : prow) : bool :=
+  negb (pproduct r) || match prerand r with RAlways => true | _ => false end.
